@@ -23,7 +23,7 @@ import (
 // runC16Stream: CER, DWR and an application request arrive on three streams of
 // an in-memory SCTP association served by a state machine; every answer must
 // mirror its request (checkAnswer) and be written to the request's stream.
-func runC16Stream(c *ev.Case, ctx *lib.Ctx, sCER, sDWR, sApp uint16, zeroIDs, failCER, deferred bool) {
+func runC16Stream(c *ev.Case, ctx *lib.Ctx, sCER, sDWR, sApp uint16, zeroIDs, failCER, deferred, pinWriter bool) {
 	sig := func(op string) ev.Sig { return ev.Sig{"op": op, "half": "stream"} }
 	settings := &sm.Settings{OriginHost: "srv.local", OriginRealm: "realm.local", VendorID: 13, ProductName: "verif",
 		HostIPAddresses: []datatype.Address{datatype.Address([]byte{192, 0, 2, 1})}}
@@ -47,6 +47,10 @@ func runC16Stream(c *ev.Case, ctx *lib.Ctx, sCER, sDWR, sApp uint16, zeroIDs, fa
 	if err != nil {
 		c.Fail(sig("setup"), nil, nil, "NewConn: %v", err)
 		return
+	}
+	if pinWriter {
+		// a writer stream pinned for plain Write calls: answers still belong on their request's stream
+		msc.SetWriterStream(uint(sCER%7) + 20)
 	}
 	defer func() {
 		assoc.FeedEOF()
@@ -274,8 +278,8 @@ func TestC16Stream(t *testing.T) {
 		}
 		deferred := (c.I/(len(streams)*len(streams)))%2 == 1
 		failCER := c.I%11 == 0
-		c.Class("stream/cer=%d/deferred=%v/fail=%v", a, deferred, failCER)
-		leak := runBubbleWD(t, rec, c, 60*time.Second, func() { runC16Stream(c, ctx, a, b, d, c.I%5 == 0, failCER, deferred) })
+		c.Class("stream/cer=%d/deferred=%v/fail=%v/pinned-writer-stream=%v", a, deferred, failCER, (c.I/3)%3 == 1)
+		leak := runBubbleWD(t, rec, c, 60*time.Second, func() { runC16Stream(c, ctx, a, b, d, c.I%5 == 0, failCER, deferred, (c.I/3)%3 == 1) })
 		if leak != "" && !c.Failed() {
 			c.Fail(ev.Sig{"op": "bubble-leak"}, nil, nil, "goroutines left blocked: %s", leak)
 		}
